@@ -3,15 +3,25 @@ package server
 // C13 — only one member of a consumer group consumes a partition at a time.
 //
 // One real server, one stream. Rounds of concurrent group subscribes (consumer ids
-// from a small pool so that the same id re-subscribes, epochs from {1,2,3}), client
-// cancellations and subscriptions that end by themselves, each round followed by a
-// quiescent point at which a marker message is published: at most one group
-// subscriber may receive it. Then sequential probes: an older epoch must be refused
-// and leave the current subscriber delivering; an equal or newer epoch must replace it.
+// from a small pool so that the same id re-subscribes, epochs from {1,2,3} or from
+// {0,1,2,3,1<<40}, one or two groups on the same partition), client cancellations and
+// subscriptions that end by themselves (stop offset reached, partition made read-only,
+// paused or deleted under them), each round followed by a quiescent point at which a
+// marker message is published: at most one subscriber per group may receive it, and the
+// partition's group registry must name exactly that subscriber (no entry when nobody
+// receives). The outcomes of a round's subscribes are judged against a sequential
+// "current member" register (linearizability). Then sequential probes: an older epoch
+// must be refused and leave the current subscriber delivering; an equal or newer epoch
+// must replace it; a request that is refused as malformed must leave it untouched; when
+// nobody is subscribed any more a member with a lower epoch is admitted.
+//
+// A small share of the programs runs on two servers (replication factor 2) and tries to
+// get a second member of the group admitted on the follower (ReadISRReplica).
 
 import (
 	"context"
 	"fmt"
+	"math"
 	"testing"
 	"time"
 
@@ -23,9 +33,53 @@ import (
 	"verif.local/simrt/hx"
 )
 
+var (
+	c13EpochTable = []uint64{0, 1, 2, 3, 1 << 40}
+	c13Groups     = []string{"g", "h"}
+	c13Consumers  = []string{"a", "b", "z"}
+)
+
+// kinds of deliberately malformed subscribe requests (op argument "invalid")
+const (
+	c13Valid         = 0
+	c13StopBelow     = 1 // STOP_OFFSET with a stop offset below the start offset
+	c13BadStart      = 2 // unknown StartPosition
+	c13BadStop       = 3 // unknown StopPosition
+	c13StopLatest    = 4 // NEW_ONLY..STOP_LATEST: empty range, or "stream is empty" on an empty partition
+	c13InvalidKinds  = 4
+	c13DisruptRO     = 0
+	c13DisruptPause  = 1
+	c13DisruptDelete = 2
+)
+
 func genC13(r *simrt.Rand, tier string, idx int) *hx.Program {
 	p := &hx.Program{P: map[string]int64{}}
 	p.P["sticky"] = []int64{0, 50, 80, 95}[r.Intn(4)]
+	if r.Intn(25) == 0 {
+		return genC13Replica(r, p)
+	}
+	// swarm: every behaviour is switched on for a share of the programs only
+	wide := r.Intn(10) < 4            // epochs from {0,1,2,3,1<<40} instead of {1,2,3}
+	groups := 1                       // number of consumer groups on the partition
+	disrupt := r.Intn(10) < 3         // read-only / pause / delete during rounds
+	pubs := r.Intn(10) < 3            // publishes during rounds (self-ending subscriptions end inside the round)
+	resume := r.Intn(10) < 2          // subscribes carrying Resume:true
+	invalid := r.Intn(10) < 4         // malformed subscribe requests
+	p.P["grpcctx"] = int64(r.Intn(2)) // the stream context ends when the handler returns, as under gRPC
+	if r.Intn(10) < 3 {
+		groups = 2
+	}
+	if r.Intn(8) == 0 {
+		p.P["empty"] = 1 // once: the "stream is empty" refusal on a partition that never held a message
+	}
+	p.P["wide"], p.P["groups"] = b2i(wide), int64(groups)
+	p.P["disrupt"], p.P["pubs"], p.P["resume"], p.P["invalid"] = b2i(disrupt), b2i(pubs), b2i(resume), b2i(invalid)
+	epochIdx := func() int64 {
+		if wide {
+			return int64(r.Intn(len(c13EpochTable)))
+		}
+		return int64(1 + r.Intn(3))
+	}
 	rounds := 1 + r.Intn(4)
 	if tier == "thorough" {
 		rounds = 1 + r.Intn(8)
@@ -33,115 +87,515 @@ func genC13(r *simrt.Rand, tier string, idx int) *hx.Program {
 	for k := 0; k < rounds; k++ {
 		n := 2 + r.Intn(6)
 		for i := 0; i < n; i++ {
-			c := r.Intn(4) // client task
-			switch x := r.Intn(10); {
-			case x < 6:
-				// consumer id, epoch, ends-by-itself
-				p.Ops = append(p.Ops, hx.Op{K: "sub", S: fmt.Sprintf("c%d", c), A: []int64{int64(r.Intn(2)), int64(1 + r.Intn(3)), int64(r.Intn(4) / 3)}})
-			case x < 8:
-				p.Ops = append(p.Ops, hx.Op{K: "cancel", S: fmt.Sprintf("c%d", c)})
+			c := fmt.Sprintf("c%d", r.Intn(4)) // client task
+			x := r.Intn(20)
+			switch {
+			case x == 16 && pubs:
+				p.Ops = append(p.Ops, hx.Op{K: "pub", S: c})
+			case x == 17 && disrupt:
+				p.Ops = append(p.Ops, hx.Op{K: "disrupt", S: c, A: []int64{int64(r.Intn(3))}})
+			case x < 12 || x == 16 || x == 17:
+				// consumer id, epoch, ends-by-itself, group, resume, malformed
+				a := []int64{int64(r.Intn(2)), epochIdx(), int64(r.Intn(4) / 3), int64(r.Intn(groups)), 0, 0}
+				if resume && r.Intn(4) == 0 {
+					a[4] = 1
+				}
+				if invalid && r.Intn(8) == 0 {
+					a[5] = int64(1 + r.Intn(c13InvalidKinds))
+				}
+				p.Ops = append(p.Ops, hx.Op{K: "sub", S: c, A: a})
+			case x < 16:
+				p.Ops = append(p.Ops, hx.Op{K: "cancel", S: c})
 			default:
-				p.Ops = append(p.Ops, hx.Op{K: "sleep", S: fmt.Sprintf("c%d", c), A: []int64{int64(1 + r.Intn(20))}})
+				p.Ops = append(p.Ops, hx.Op{K: "sleep", S: c, A: []int64{int64(1 + r.Intn(20))}})
 			}
 		}
-		p.Ops = append(p.Ops, hx.Op{K: "probe", A: []int64{int64(r.Intn(3)), int64(r.Intn(2))}})
+		// kind (older / equal / newer), consumer id, malformed request first, group, free choice
+		a := []int64{int64(r.Intn(3)), int64(r.Intn(3)), 0, int64(r.Intn(groups)), int64(r.Intn(1000))}
+		if invalid && r.Intn(3) == 0 {
+			a[2] = int64(1 + r.Intn(c13InvalidKinds))
+		}
+		p.Ops = append(p.Ops, hx.Op{K: "probe", A: a})
 	}
 	return p
 }
 
+// genC13Replica: two servers; concurrent subscribes of one group on the leader and on the follower.
+func genC13Replica(r *simrt.Rand, p *hx.Program) *hx.Program {
+	p.P["mode"] = 1
+	rounds := 1 + r.Intn(2)
+	for k := 0; k < rounds; k++ {
+		n := 2 + r.Intn(4)
+		for i := 0; i < n; i++ {
+			// target (0 leader, 1 follower with ReadISRReplica, 2 follower without), epoch, consumer id
+			p.Ops = append(p.Ops, hx.Op{K: "rsub", S: fmt.Sprintf("c%d", i), A: []int64{int64(r.Intn(3)), int64(r.Intn(len(c13EpochTable))), int64(r.Intn(2))}})
+		}
+		p.Ops = append(p.Ops, hx.Op{K: "rprobe", A: []int64{int64(r.Intn(2)), int64(r.Intn(3)), int64(r.Intn(2))}})
+	}
+	return p
+}
+
+func b2i(b bool) int64 {
+	if b {
+		return 1
+	}
+	return 0
+}
+
+// c13stream stamps the moment the subscription is confirmed to the client.
+type c13stream struct {
+	*subStream
+	clock    *int64
+	openedAt int64
+}
+
+func (s *c13stream) Send(m *client.Message) error {
+	if !s.opened {
+		*s.clock++
+		s.openedAt = *s.clock
+	}
+	return s.subStream.Send(m)
+}
+func (s *c13stream) SendMsg(m any) error { return s.Send(m.(*client.Message)) }
+
+type c13spec struct {
+	node       *simNode
+	stream     string
+	group      string
+	consumer   string
+	epoch      uint64
+	selfEnd    bool // ends by itself as soon as the next message was delivered
+	resume     bool
+	invalid    int
+	isrReplica bool
+}
+
 type c13sub struct {
+	c13spec
 	id        int
-	consumer  string
-	epoch     uint64
-	st        *subStream
+	st        *c13stream
 	cancel    context.CancelFunc
 	client    string
-	selfEnd   bool
 	cancelled bool
+	// values of the run's event sequence (not simulated time)
+	callAt, endedAt, cancelAt int64
+}
+
+func (s *c13sub) String() string {
+	return fmt.Sprintf("[sub %d group=%s consumer=%s epoch=%d]", s.id, s.group, s.consumer, s.epoch)
+}
+
+// refused: the subscribe failed before it was confirmed.
+func (s *c13sub) refused() bool { return s.st.ended && !s.st.opened }
+
+// refusedOld: refused the way an out-of-date member of the group is.
+func (s *c13sub) refusedOld() bool {
+	return s.refused() && status.Code(s.st.err) == codes.FailedPrecondition
+}
+
+// c13reg is what the partition's registry says about one group.
+type c13reg struct {
+	consumer string
+	epoch    uint64
+	open     bool // the registered subscription has not been closed
+}
+
+type c13x struct {
+	h         *h3
+	n         *simNode // the partition leader
+	stream    string
+	groups    []string
+	grpcctx   bool
+	ackAll    bool // markers are acknowledged by the whole ISR (two servers)
+	clock     int64
+	subs      []*c13sub
+	published map[string]int64 // next offset, per stream
+	markers   int
+	cur       map[string]*c13sub // per group: who received the last marker and still is subscribed
+	maxAcc    map[string]uint64  // per group: highest epoch admitted so far
+	cnt       map[string]int
+}
+
+func (x *c13x) tick() int64 { x.clock++; return x.clock }
+
+func (x *c13x) publishTo(stream, val string, lenient bool) int64 {
+	var resp *client.PublishResponse
+	var err error
+	policy := client.AckPolicy_LEADER
+	if x.ackAll {
+		policy = client.AckPolicy_ALL
+	}
+	x.h.rpc(x.n, "publish", func(api *apiServer) {
+		ctx, cancel := ctxT(5 * time.Second)
+		defer cancel()
+		resp, err = api.Publish(ctx, &client.PublishRequest{Stream: stream, Value: []byte(val), AckPolicy: policy})
+	})
+	if err != nil || resp == nil || resp.Ack == nil {
+		if !lenient {
+			x.h.oc.Trouble = fmt.Sprintf("publish: %v", err)
+		}
+		return -1
+	}
+	if resp.Ack.Offset+1 > x.published[stream] {
+		x.published[stream] = resp.Ack.Offset + 1
+	}
+	return resp.Ack.Offset
+}
+
+func (x *c13x) subscribe(who string, spec c13spec) *c13sub {
+	h := x.h
+	if spec.node == nil {
+		spec.node = x.n
+	}
+	if spec.stream == "" {
+		spec.stream = x.stream
+	}
+	ctx, cancel := ctxT(time.Hour)
+	req := &client.SubscribeRequest{Stream: spec.stream, StartPosition: client.StartPosition_NEW_ONLY, Resume: spec.resume, ReadISRReplica: spec.isrReplica,
+		Consumer: &client.Consumer{GroupId: spec.group, ConsumerId: spec.consumer, GroupEpoch: spec.epoch}}
+	if spec.group == "" {
+		req.Consumer = nil
+	}
+	if spec.selfEnd {
+		req.StopPosition = client.StopPosition_STOP_OFFSET
+		req.StopOffset = x.published[spec.stream]
+	}
+	switch spec.invalid {
+	case c13StopBelow:
+		// (on a log that holds a message; on an empty log this is the valid range [0,0] and the
+		// subscription, if admitted, ends after the first message)
+		req.StopPosition = client.StopPosition_STOP_OFFSET
+		req.StopOffset = 0
+		spec.selfEnd = true
+	case c13BadStart:
+		req.StartPosition = client.StartPosition(99)
+	case c13BadStop:
+		req.StopPosition = client.StopPosition(99)
+	case c13StopLatest:
+		req.StopPosition = client.StopPosition_STOP_LATEST
+		spec.selfEnd = true
+	}
+	s := &c13sub{c13spec: spec, id: len(x.subs) + 1, cancel: cancel, client: who, callAt: x.tick()}
+	x.subs = append(x.subs, s)
+	s.st = &c13stream{subStream: newSubStream(ctx, h.s), clock: &x.clock}
+	api := spec.node.srv.api
+	h.s.GoNode(spec.node.node, "rpc:subscribe", func() {
+		err := api.Subscribe(req, s.st)
+		s.st.err = err
+		s.endedAt = x.tick()
+		s.st.ended = true
+		if x.grpcctx {
+			s.st.cancel() // gRPC cancels the stream's context when the handler returns
+		}
+	})
+	return s
+}
+
+func (x *c13x) await(s *c13sub) {
+	x.h.waitFor("sub-open", 2*time.Second, func() bool { return s.st.opened || s.st.ended })
+	if s.client == "probe" {
+		x.h.s.Logf("probe: subscribe %v stream=%s resume=%v malformed=%d -> opened=%v ended=%v err=%v", s, s.stream, s.resume, s.invalid, s.st.opened, s.st.ended, s.st.err)
+	}
+	if s.st.opened && s.stream == x.stream && s.epoch > x.maxAcc[s.group] {
+		x.maxAcc[s.group] = s.epoch
+	}
+}
+
+// peek reads the partition's registry of group subscribers on node n.
+func (x *c13x) peek(n *simNode, stream string) map[string]*c13reg {
+	out := map[string]*c13reg{}
+	x.h.rpc(n, "peek", func(api *apiServer) {
+		p := api.metadata.GetPartition(stream, 0)
+		if p == nil {
+			return
+		}
+		for _, g := range x.groups {
+			m := p.GetGroupConsumer(g)
+			if m == nil {
+				continue
+			}
+			r := &c13reg{consumer: m.consumerID, epoch: m.groupEpoch, open: true}
+			select {
+			case <-m.sub.closed:
+				r.open = false
+			default:
+			}
+			out[g] = r
+		}
+	})
+	return out
+}
+
+// marker is the quiescent point: it publishes a message; per group at most one subscriber
+// receives it and the registry (read before the publish) names exactly that one. It returns
+// the receivers; x.cur is brought up to date (a receiver that ends by itself has left).
+func (x *c13x) marker(stream, why string) (map[string]*c13sub, bool) {
+	h := x.h
+	simrt.Sleep(200 * time.Millisecond)
+	before := x.peek(x.n, stream)
+	val := fmt.Sprintf("marker-%d", x.markers)
+	x.markers++
+	if x.publishTo(stream, val, false) < 0 {
+		return nil, false
+	}
+	simrt.Sleep(300 * time.Millisecond)
+	got := map[string]*c13sub{}
+	for _, g := range x.groups {
+		var rcv []*c13sub
+		for _, s := range x.subs {
+			if s.group != g {
+				continue
+			}
+			for _, m := range s.st.msgs {
+				if string(m.Value) == val {
+					rcv = append(rcv, s)
+					break
+				}
+			}
+		}
+		h.oc.Checks++
+		if len(rcv) > 1 {
+			desc := ""
+			for _, s := range rcv {
+				desc += s.String() + " "
+			}
+			h.fail("C13/two-active", "C13/two-active", "%s: message %q was delivered to %d subscriptions of group %s: %s", why, val, len(rcv), g, desc)
+			return nil, false
+		}
+		reg := before[g]
+		h.oc.Checks++
+		switch {
+		case len(rcv) == 1 && reg == nil:
+			h.fail("C13/registry", "C13/registry/receiver-not-registered", "%s: %s received %q but the partition has no registered subscriber for the group (the next member, whatever its epoch, would be admitted next to it)", why, rcv[0], val)
+		case len(rcv) == 0 && reg != nil:
+			h.fail("C13/registry", "C13/registry/stale-entry", "%s: the partition names consumer %s epoch %d (closed=%v) as the subscriber of group %s, but no subscription of the group received %q", why, reg.consumer, reg.epoch, !reg.open, g, val)
+		case len(rcv) == 1 && (reg.consumer != rcv[0].consumer || reg.epoch != rcv[0].epoch):
+			h.fail("C13/registry", "C13/registry/names-another", "%s: %s received %q but the partition names consumer %s epoch %d as the group's subscriber", why, rcv[0], val, reg.consumer, reg.epoch)
+		case len(rcv) == 1 && !reg.open:
+			h.fail("C13/registry", "C13/registry/closed-entry", "%s: %s received %q but the registered subscription is closed", why, rcv[0], val)
+		}
+		if h.stop {
+			return nil, false
+		}
+		if h.verbose {
+			h.s.Logf("%s: %q: group %s: receivers %v, registry before the publish %+v", why, val, g, rcv, reg)
+		}
+		if len(rcv) == 1 {
+			got[g] = rcv[0]
+			x.cnt["probe.registry_matches_receiver"]++
+		} else {
+			x.cnt["probe.registry_empty_and_no_receiver"]++
+		}
+	}
+	// a receiver that ends by itself has ended now and must have left the registry
+	leaving := false
+	for _, g := range x.groups {
+		x.cur[g] = got[g]
+		if s := got[g]; s != nil && s.selfEnd {
+			h.waitFor("self-end", time.Second, func() bool { return s.st.ended })
+			if s.st.ended {
+				leaving = true
+				x.cur[g] = nil
+			}
+		}
+	}
+	if leaving {
+		simrt.Sleep(50 * time.Millisecond)
+		after := x.peek(x.n, stream)
+		for _, g := range x.groups {
+			if s := got[g]; s != nil && s.selfEnd && s.st.ended {
+				h.oc.Checks++
+				x.cnt["probe.self_ended_receiver_left_registry"]++
+				if reg := after[g]; reg != nil {
+					h.fail("C13/registry", "C13/registry/stale-entry/after-loop-exit", "%s ended by itself (%v) but the partition still names consumer %s epoch %d as the subscriber of group %s", s, s.st.err, reg.consumer, reg.epoch, g)
+					return nil, false
+				}
+			}
+		}
+	}
+	return got, true
+}
+
+// ---- sequential register model of one group's current member
+
+type c13op struct {
+	kind      int // 0 admitted, 1 refused as out of date, 2 the subscription's loop exit leaves the registry
+	sub       int // index into the round's subscription list
+	call, ret int64
+}
+
+// c13Linearizable: is there an order of the operations, consistent with their call/return
+// stamps, in which a subscribe is admitted iff nobody is registered or the registered epoch is
+// not higher (and then is the registered one), is refused iff a higher epoch is registered, a
+// loop exit removes its own entry only, and the final entry is `final` (-1: none)?
+func c13Linearizable(init int, epochs []uint64, ops []c13op, final int) bool {
+	n := len(ops)
+	all := uint64(1)<<uint(n) - 1
+	dead := map[[2]uint64]bool{}
+	var rec func(done uint64, r int) bool
+	rec = func(done uint64, r int) bool {
+		if done == all {
+			return r == final
+		}
+		key := [2]uint64{done, uint64(r + 1)}
+		if dead[key] {
+			return false
+		}
+		minRet := int64(math.MaxInt64)
+		for i, o := range ops {
+			if done&(1<<uint(i)) == 0 && o.ret < minRet {
+				minRet = o.ret
+			}
+		}
+		for i, o := range ops {
+			if done&(1<<uint(i)) != 0 || o.call > minRet {
+				continue
+			}
+			nr, ok := r, true
+			switch o.kind {
+			case 0:
+				ok = r < 0 || epochs[r] <= epochs[o.sub]
+				nr = o.sub
+			case 1:
+				ok = r >= 0 && epochs[r] > epochs[o.sub]
+			case 2:
+				if r == o.sub {
+					nr = -1
+				}
+			}
+			if ok && rec(done|1<<uint(i), nr) {
+				return true
+			}
+		}
+		dead[key] = true
+		return false
+	}
+	return rec(0, init)
+}
+
+// judgeRound checks the outcomes of one round's subscribes of group g. init is the member
+// that was current when the round began, burst the subscriptions started in the round, final
+// the receiver of the marker after the round, roundStart the stamp at which the round began.
+func (x *c13x) judgeRound(g string, init *c13sub, burst []*c13sub, final *c13sub, roundStart int64) {
+	h := x.h
+	var members []*c13sub
+	index := func(s *c13sub) int {
+		for i, m := range members {
+			if m == s {
+				return i
+			}
+		}
+		members = append(members, s)
+		return len(members) - 1
+	}
+	var ops []c13op
+	r0 := -1
+	if init != nil {
+		r0 = index(init)
+	}
+	leave := func(s *c13sub, from int64) {
+		switch {
+		case s.st.ended && s.st.err != nil:
+			// ended with an error (stop offset reached, read-only, ...): its loop has exited, at an unknown
+			// moment (possibly before the client learned that it was subscribed)
+			ops = append(ops, c13op{kind: 2, sub: index(s), call: from, ret: math.MaxInt64})
+		case s.cancelled:
+			// the client's cancellation makes the loop exit
+			if s.cancelAt > from {
+				from = s.cancelAt
+			}
+			ops = append(ops, c13op{kind: 2, sub: index(s), call: from, ret: math.MaxInt64})
+		}
+	}
+	if init != nil {
+		leave(init, roundStart)
+	}
+	for _, s := range burst {
+		if s.group != g || s.stream != x.stream {
+			continue
+		}
+		switch {
+		case s.st.opened:
+			ops = append(ops, c13op{kind: 0, sub: index(s), call: s.callAt, ret: s.st.openedAt})
+			leave(s, s.callAt)
+		case s.refusedOld():
+			ops = append(ops, c13op{kind: 1, sub: index(s), call: s.callAt, ret: s.endedAt})
+		case s.st.ended:
+			// refused for another reason: no effect on the group
+		default:
+			x.cnt["probe.round_with_unanswered_subscribe"]++
+			return
+		}
+	}
+	rf := -1
+	if final != nil {
+		known := false
+		for i, m := range members {
+			if m == final {
+				rf, known = i, true
+			}
+		}
+		if !known {
+			return // (the marker clauses deal with a receiver that is neither the old member nor one of this round)
+		}
+	}
+	if len(ops) == 0 || len(ops) > 40 {
+		return
+	}
+	epochs := make([]uint64, len(members))
+	for i, m := range members {
+		epochs[i] = m.epoch
+	}
+	h.oc.Checks++
+	x.cnt["probe.rounds_judged_against_register"]++
+	if !c13Linearizable(r0, epochs, ops, rf) {
+		desc := fmt.Sprintf("current at the start: %v;", init)
+		for _, o := range ops {
+			ret := fmt.Sprint(o.ret)
+			if o.ret == math.MaxInt64 {
+				ret = "…"
+			}
+			desc += fmt.Sprintf(" %s %v [%d,%s];", []string{"admitted", "refused-as-older", "loop-exit-of"}[o.kind], members[o.sub], o.call, ret)
+		}
+		desc += fmt.Sprintf(" receiver of the next message: %v", final)
+		h.fail("C13/round", "C13/round/not-linearizable", "group %s: no order of this round's subscribes and subscription endings explains their outcomes (admitted iff no member or member's epoch <= own; refused iff member's epoch > own): %s", g, desc)
+	}
 }
 
 func execC13(t *testing.T, prog *hx.Program, dec *simrt.Decider, verbose bool) *hx.Outcome {
-	var subs []*c13sub
-	markers, probes, replaced, refused := 0, 0, 0, 0
+	if prog.Param("mode", 0) == 1 {
+		return execC13Replica(t, prog, dec, verbose)
+	}
+	x := &c13x{stream: "s", published: map[string]int64{}, cur: map[string]*c13sub{}, maxAcc: map[string]uint64{}, cnt: map[string]int{}}
+	x.groups = c13Groups[:int(prog.Param("groups", 1))]
+	x.grpcctx = prog.Param("grpcctx", 0) == 1
+	probes, replaced, refused := 0, 0, 0
 	oc := runH3(t, prog, dec, verbose, 1, func(h *h3) {
+		x.h = h
 		n := h.single()
 		if n == nil {
 			return
 		}
-		var cerr error
-		h.rpc(n, "create", func(api *apiServer) {
-			ctx, cancel := ctxT(10 * time.Second)
-			defer cancel()
-			_, cerr = api.CreateStream(ctx, &client.CreateStreamRequest{Name: "s", Subject: "s", Partitions: 1, ReplicationFactor: 1})
-		})
-		if cerr != nil {
-			h.oc.Trouble = "create: " + cerr.Error()
+		x.n = n
+		create := func(name string) bool {
+			var cerr error
+			h.rpc(n, "create", func(api *apiServer) {
+				ctx, cancel := ctxT(10 * time.Second)
+				defer cancel()
+				_, cerr = api.CreateStream(ctx, &client.CreateStreamRequest{Name: name, Subject: name, Partitions: 1, ReplicationFactor: 1})
+			})
+			if cerr != nil {
+				h.oc.Trouble = "create: " + cerr.Error()
+				return false
+			}
+			return true
+		}
+		if !create("s") {
 			return
 		}
-		published := int64(0)
-		publish := func(val string) int64 {
-			var resp *client.PublishResponse
-			var err error
-			h.rpc(n, "publish", func(api *apiServer) {
-				ctx, cancel := ctxT(5 * time.Second)
-				defer cancel()
-				resp, err = api.Publish(ctx, &client.PublishRequest{Stream: "s", Value: []byte(val), AckPolicy: client.AckPolicy_LEADER})
-			})
-			if err != nil || resp == nil || resp.Ack == nil {
-				h.oc.Trouble = fmt.Sprintf("publish: %v", err)
-				return -1
-			}
-			published = resp.Ack.Offset + 1
-			return resp.Ack.Offset
-		}
-		publish("first")
-		subscribe := func(who, consumer string, epoch uint64, selfEnd bool) *c13sub {
-			ctx, cancel := ctxT(time.Hour)
-			req := &client.SubscribeRequest{Stream: "s", StartPosition: client.StartPosition_NEW_ONLY, Consumer: &client.Consumer{GroupId: "g", ConsumerId: consumer, GroupEpoch: epoch}}
-			if selfEnd {
-				// ends by itself as soon as the next message was delivered
-				req.StopPosition = client.StopPosition_STOP_OFFSET
-				req.StopOffset = published
-			}
-			s := &c13sub{id: len(subs) + 1, consumer: consumer, epoch: epoch, cancel: cancel, client: who, selfEnd: selfEnd}
-			subs = append(subs, s)
-			s.st = h.subscribe(n, ctx, req)
-			return s
-		}
-		refusedOld := func(s *c13sub) bool {
-			return s.st.ended && !s.st.opened && status.Code(s.st.err) == codes.FailedPrecondition
-		}
-		// quiescent point: publish a marker; at most one group subscriber receives it
-		marker := func(why string) *c13sub {
-			simrt.Sleep(200 * time.Millisecond)
-			val := fmt.Sprintf("marker-%d", markers)
-			markers++
-			if publish(val) < 0 {
-				return nil
-			}
-			simrt.Sleep(300 * time.Millisecond)
-			var got []*c13sub
-			for _, s := range subs {
-				for _, m := range s.st.msgs {
-					if string(m.Value) == val {
-						got = append(got, s)
-					}
-				}
-			}
-			h.oc.Checks++
-			if len(got) > 1 {
-				desc := ""
-				for _, s := range got {
-					desc += fmt.Sprintf("[sub %d consumer=%s epoch=%d] ", s.id, s.consumer, s.epoch)
-				}
-				h.fail("C13/two-active", "C13/two-active", "%s: message %q was delivered to %d subscriptions of group g: %s", why, val, len(got), desc)
-				return nil
-			}
-			if len(got) == 1 {
-				return got[0]
-			}
-			return nil
-		}
+		x.publishTo("s", "first", false)
+		mine := map[string]*c13sub{} // the subscription a client task made last (also in earlier rounds)
+		emptyDone := prog.Param("empty", 0) == 0
 		// split rounds
 		var round []hx.Op
 		for i, op := range prog.Ops {
@@ -162,31 +616,71 @@ func execC13(t *testing.T, prog *hx.Program, dec *simrt.Decider, verbose bool) *
 				byClient[o.S] = append(byClient[o.S], o)
 			}
 			round = nil
+			init := map[string]*c13sub{}
+			for _, g := range x.groups {
+				init[g] = x.cur[g]
+			}
+			roundStart, firstSub := x.tick(), len(x.subs)
+			disrupted := map[int]bool{}
+			newObject := false // the round may have put a new partition object in place (pause+resume, delete)
 			running := 0
 			for ci, name := range order {
 				name, ops := name, byClient[name]
 				running++
 				h.s.GoNode(200+ci, "client-"+name, func() {
 					defer func() { running-- }()
-					var mine *c13sub
 					for _, o := range ops {
 						if h.stop {
 							return
 						}
 						switch o.K {
 						case "sub":
-							s := subscribe(name, []string{"a", "b"}[o.Arg(0, 0)%2], uint64(o.Arg(1, 1)), o.Arg(2, 0) == 1)
-							h.waitFor("sub-open", 2*time.Second, func() bool { return s.st.opened || s.st.ended })
-							h.s.Logf("%s: subscribe consumer=%s epoch=%d -> opened=%v ended=%v err=%v", name, s.consumer, s.epoch, s.st.opened, s.st.ended, s.st.err)
-							mine = s
+							s := x.subscribe(name, c13spec{group: c13Groups[o.Arg(3, 0)%2], consumer: c13Consumers[o.Arg(0, 0)%2], epoch: c13EpochTable[o.Arg(1, 1)%5],
+								selfEnd: o.Arg(2, 0) == 1, resume: o.Arg(4, 0) == 1, invalid: int(o.Arg(5, 0))})
+							if s.resume {
+								newObject = true
+							}
+							x.await(s)
+							h.s.Logf("%s: subscribe %v selfEnd=%v resume=%v malformed=%d -> opened=%v ended=%v err=%v", name, s, s.selfEnd, s.resume, s.invalid, s.st.opened, s.st.ended, s.st.err)
+							if s.invalid != c13Valid && s.refused() {
+								x.cnt["probe.malformed_subscribe_refused_in_round"]++
+							}
+							mine[name] = s
 						case "cancel":
-							if mine != nil && !mine.st.ended {
-								mine.cancelled = true
-								mine.cancel()
-								h.s.Logf("%s: cancelled sub %d", name, mine.id)
+							if m := mine[name]; m != nil && !m.st.ended {
+								m.cancelled = true
+								m.cancelAt = x.tick()
+								m.cancel()
+								h.s.Logf("%s: cancelled sub %d", name, m.id)
 							}
 						case "sleep":
 							simrt.Sleep(time.Duration(o.Arg(0, 1)) * time.Millisecond)
+						case "pub":
+							off := x.publishTo(x.stream, fmt.Sprintf("round-%d", x.tick()), true)
+							h.s.Logf("%s: published at offset %d", name, off)
+							if off >= 0 {
+								x.cnt["probe.publish_during_round"]++
+							}
+						case "disrupt":
+							kind := int(o.Arg(0, 0))
+							disrupted[kind] = true
+							var err error
+							h.rpc(n, "disrupt", func(api *apiServer) {
+								ctx, cancel := ctxT(10 * time.Second)
+								defer cancel()
+								switch kind {
+								case c13DisruptRO:
+									_, err = api.SetStreamReadonly(ctx, &client.SetStreamReadonlyRequest{Name: x.stream, Readonly: true})
+								case c13DisruptPause:
+									_, err = api.PauseStream(ctx, &client.PauseStreamRequest{Name: x.stream})
+								case c13DisruptDelete:
+									_, err = api.DeleteStream(ctx, &client.DeleteStreamRequest{Name: x.stream})
+								}
+							})
+							h.s.Logf("%s: %s -> %v", name, []string{"read-only", "pause", "delete"}[kind], err)
+							if err == nil {
+								x.cnt[[]string{"fault.readonly_during_round", "fault.pause_during_round", "fault.delete_during_round"}[kind]]++
+							}
 						}
 					}
 				})
@@ -195,55 +689,198 @@ func execC13(t *testing.T, prog *hx.Program, dec *simrt.Decider, verbose bool) *
 			if h.stop {
 				break
 			}
-			cur := marker(fmt.Sprintf("after round ending at op %d", i))
-			if h.stop || h.oc.Trouble != "" {
-				break
-			}
-			// every accepted subscription that is not the current one must have ended by now
-			// unless it is simply idle... an idle but live second subscription would have got the marker,
-			// so nothing more to check here.
-			if cur == nil || cur.selfEnd || cur.st.ended {
-				continue // (a self-ending subscription ends right after the marker it received)
-			}
-			// ---- sequential probes against the current subscriber
-			probes++
-			switch op.Arg(0, 0) {
-			case 0:
-				if cur.epoch <= 1 {
+			// ---- back to a partition that takes messages
+			simrt.Sleep(200 * time.Millisecond)
+			paused := false
+			if len(disrupted) > 0 {
+				exists := false
+				var err error
+				h.rpc(n, "restore", func(api *apiServer) {
+					ctx, cancel := ctxT(10 * time.Second)
+					defer cancel()
+					p := api.metadata.GetPartition(x.stream, 0)
+					if p == nil {
+						return
+					}
+					exists = true
+					paused = p.IsPaused()
+					if p.IsReadonly() || disrupted[c13DisruptRO] {
+						_, err = api.SetStreamReadonly(ctx, &client.SetStreamReadonlyRequest{Name: x.stream, Readonly: false})
+					}
+				})
+				if err != nil {
+					h.oc.Trouble = "restore: " + err.Error()
 					break
 				}
-				s := subscribe("probe", []string{"a", "b", "z"}[op.Arg(1, 0)], cur.epoch-1, false)
-				h.waitFor("probe", 2*time.Second, func() bool { return s.st.opened || s.st.ended })
+				if !exists {
+					if !create(x.stream) {
+						break
+					}
+					x.published[x.stream] = 0
+				}
+				if disrupted[c13DisruptPause] || disrupted[c13DisruptDelete] {
+					newObject = true
+				}
+			}
+			burst := append([]*c13sub(nil), x.subs[firstSub:]...)
+			vacantAfter := ""
+			if paused {
+				vacantAfter = "pause"
+				// everybody's subscription ended with the pause. A member with a lower epoch that resumes the
+				// partition is admitted (or the marker's publish resumes it, and the probe below finds nobody).
+				if lower, ok := x.lowerEpoch(op.Arg(3, 0), op.Arg(4, 0)); ok && op.Arg(4, 0)%2 == 0 {
+					g := c13Groups[op.Arg(3, 0)%int64(len(x.groups))]
+					s := x.subscribe("probe", c13spec{group: g, consumer: c13Consumers[op.Arg(1, 0)%3], epoch: lower, resume: true})
+					x.await(s)
+					h.oc.Checks++
+					if !s.st.opened || s.st.ended {
+						h.fail("C13/vacant", "C13/vacant/refused/resume", "the partition was paused (every subscription ended); a resuming subscribe of group %s with epoch %d (highest admitted so far: %d) was not accepted: %v", g, s.epoch, x.maxAcc[g], s.st.err)
+						break
+					}
+					x.cnt["probe.lower_epoch_admitted_resuming_paused_partition"]++
+					got, ok := x.marker(x.stream, "after a resuming subscribe on the paused partition")
+					if !ok {
+						break
+					}
+					h.oc.Checks++
+					if got[g] != s {
+						h.fail("C13/vacant", "C13/vacant/not-current/resume", "%s resumed the paused partition and was admitted but does not receive messages (ended=%v err=%v; receiver: %v)", s, s.st.ended, s.st.err, got[g])
+						break
+					}
+				}
+			}
+			got, ok := x.marker(x.stream, fmt.Sprintf("after round ending at op %d", i))
+			if !ok || h.stop || h.oc.Trouble != "" {
+				break
+			}
+			if !newObject {
+				for _, g := range x.groups {
+					x.judgeRound(g, init[g], burst, got[g], roundStart)
+				}
+				if h.stop {
+					break
+				}
+			}
+			for kind, name := range []string{"readonly", "pause", "delete"} {
+				if disrupted[kind] && vacantAfter == "" {
+					vacantAfter = name
+				}
+			}
+			// ---- once: the partition that never held a message
+			if !emptyDone {
+				emptyDone = true
+				if !x.emptyPartition(create, op) {
+					break
+				}
+			}
+			// ---- sequential probes against the current subscriber of one group
+			g := c13Groups[op.Arg(3, 0)%int64(len(x.groups))]
+			cur := x.cur[g]
+			probes++
+			if cur == nil {
+				// nobody is subscribed: a member with a lower epoch than the group has seen is admitted
+				epoch, lower := x.lowerEpoch(op.Arg(3, 0), op.Arg(4, 0))
+				s := x.subscribe("probe", c13spec{group: g, consumer: c13Consumers[op.Arg(1, 0)%3], epoch: epoch})
+				x.await(s)
 				h.oc.Checks++
-				if !refusedOld(s) {
+				if !s.st.opened || s.st.ended {
+					h.fail("C13/vacant", "C13/vacant/refused", "no subscription of group %s is active (nobody received the last message, the partition names nobody); a subscribe with epoch %d (highest admitted so far: %d) was not accepted: %v", g, s.epoch, x.maxAcc[g], s.st.err)
+					break
+				}
+				got, ok := x.marker(x.stream, "after a subscribe to the vacant group")
+				if !ok {
+					break
+				}
+				h.oc.Checks++
+				if got[g] != s {
+					h.fail("C13/vacant", "C13/vacant/not-current", "%s was admitted to the vacant group but does not receive messages (ended=%v err=%v; receiver: %v)", s, s.st.ended, s.st.err, got[g])
+					break
+				}
+				if lower {
+					x.cnt["probe.lower_epoch_admitted_to_vacant_group"]++
+					if vacantAfter != "" {
+						x.cnt["probe.lower_epoch_admitted_after_"+vacantAfter]++
+					}
+				} else {
+					x.cnt["probe.member_admitted_to_vacant_group"]++
+				}
+				continue
+			}
+			if cur.st.ended {
+				continue
+			}
+			// a malformed request with an equal or newer epoch: if it is refused, the current member stays
+			if kind := int(op.Arg(2, 0)); kind != c13Valid {
+				s := x.subscribe("probe", c13spec{group: g, consumer: c13Consumers[(op.Arg(1, 0)+1)%3], epoch: cur.epoch + uint64(op.Arg(4, 0)%2), invalid: kind})
+				x.await(s)
+				if s.st.opened {
+					// (the server took the request for a valid one: then it is a replacement like any other)
+					x.cnt["probe.malformed_subscribe_admitted"]++
+				} else {
+					x.cnt["probe.malformed_subscribe_refused"]++
+					x.cnt[fmt.Sprintf("probe.malformed_subscribe_refused.kind%d", kind)]++
+				}
+				got, ok := x.marker(x.stream, "after a malformed subscribe")
+				if !ok {
+					break
+				}
+				if s.refused() {
+					h.oc.Checks++
+					if got[g] != cur {
+						h.fail("C13/invalid", "C13/invalid/disturbed", "a malformed subscribe (kind %d, epoch %d) of group %s was refused (%v), and afterwards the active %s no longer receives messages (ended=%v err=%v; receiver: %v)", kind, s.epoch, g, s.st.err, cur, cur.st.ended, cur.st.err, got[g])
+						break
+					}
+				}
+				cur = x.cur[g]
+				if cur == nil || cur.st.ended {
+					continue
+				}
+			}
+			switch op.Arg(0, 0) {
+			case 0:
+				if cur.epoch == 0 {
+					break
+				}
+				older := cur.epoch - 1
+				if op.Arg(4, 0)%3 == 0 {
+					older = c13EpochTable[0]
+				}
+				s := x.subscribe("probe", c13spec{group: g, consumer: c13Consumers[op.Arg(1, 0)%3], epoch: older})
+				x.await(s)
+				h.oc.Checks++
+				if !s.refusedOld() {
 					h.fail("C13/old-epoch", "C13/old-epoch/admitted", "a subscribe with group epoch %d was not refused although subscription %d (consumer %s) with epoch %d is active (opened=%v err=%v)", s.epoch, cur.id, cur.consumer, cur.epoch, s.st.opened, s.st.err)
 					break
 				}
 				refused++
 				s.cancel()
-				after := marker("after a refused older-epoch subscribe")
-				if h.stop {
+				got, ok := x.marker(x.stream, "after a refused older-epoch subscribe")
+				if !ok {
 					break
 				}
 				h.oc.Checks++
-				if after != cur {
+				if got[g] != cur {
 					h.fail("C13/old-epoch", "C13/old-epoch/disturbed", "after refusing an older-epoch subscribe the active subscription %d (consumer %s epoch %d) no longer receives messages (ended=%v err=%v)", cur.id, cur.consumer, cur.epoch, cur.st.ended, cur.st.err)
 				}
 			default:
 				bump := uint64(op.Arg(0, 0) - 1) // equal or newer
-				s := subscribe("probe", []string{"a", "b", "z"}[op.Arg(1, 0)], cur.epoch+bump, false)
-				h.waitFor("probe", 2*time.Second, func() bool { return s.st.opened || s.st.ended })
+				others := map[string]*c13sub{}
+				for _, og := range x.groups {
+					others[og] = x.cur[og]
+				}
+				s := x.subscribe("probe", c13spec{group: g, consumer: c13Consumers[op.Arg(1, 0)%3], epoch: cur.epoch + bump})
+				x.await(s)
 				h.oc.Checks++
 				if !s.st.opened || s.st.ended {
 					h.fail("C13/replace", "C13/replace/refused", "a subscribe with group epoch %d (current is %d) was not accepted: %v", s.epoch, cur.epoch, s.st.err)
 					break
 				}
-				after := marker("after an equal-or-newer epoch subscribe")
-				if h.stop {
+				got, ok := x.marker(x.stream, "after an equal-or-newer epoch subscribe")
+				if !ok {
 					break
 				}
 				h.oc.Checks++
-				if after != s {
+				if got[g] != s {
 					h.fail("C13/replace", "C13/replace/not-current", "after subscription %d (epoch %d) replaced subscription %d (epoch %d) the new one does not receive messages (ended=%v err=%v)", s.id, s.epoch, cur.id, cur.epoch, s.st.ended, s.st.err)
 					break
 				}
@@ -252,31 +889,279 @@ func execC13(t *testing.T, prog *hx.Program, dec *simrt.Decider, verbose bool) *
 					h.fail("C13/replace", "C13/replace/old-not-cancelled", "subscription %d was replaced by %d but was not cancelled", cur.id, s.id)
 				}
 				replaced++
+				// the other group's member has nothing to do with it
+				for _, og := range x.groups {
+					if prev := others[og]; og != g && prev != nil {
+						h.oc.Checks++
+						if got[og] != prev {
+							h.fail("C13/groups", "C13/groups/other-group-disturbed", "after %s replaced %s in group %s, the active %s of group %s no longer receives messages (ended=%v err=%v; receiver: %v)", s, cur, g, prev, og, prev.st.ended, prev.st.err, got[og])
+							break
+						}
+						x.cnt["probe.other_group_kept_its_member"]++
+					}
+				}
 			}
 		}
-		for _, s := range subs {
+		if h.verbose {
+			for _, s := range x.subs {
+				h.s.Logf("at the end: %v on %s: opened=%v ended=%v err=%v messages=%d", s, s.stream, s.st.opened, s.st.ended, s.st.err, len(s.st.msgs))
+			}
+		}
+		for _, s := range x.subs {
 			s.cancel()
 		}
 		simrt.Sleep(100 * time.Millisecond)
 		h.stopNode(0)
 	})
+	return x.finish(oc, probes, refused, replaced)
+}
+
+// lowerEpoch picks an epoch for a subscribe to a vacant group: lower than the highest epoch
+// the group has admitted so far, when there is a lower one.
+func (x *c13x) lowerEpoch(group, choice int64) (uint64, bool) {
+	g := c13Groups[group%int64(len(x.groups))]
+	max := x.maxAcc[g]
+	if max == 0 {
+		return 0, false
+	}
+	if choice%3 == 0 {
+		return 0, true
+	}
+	return max - 1, true
+}
+
+// emptyPartition: on a partition that never held a message, a member subscribes; a second
+// request of the group that the server refuses ("stream is empty", or an older epoch) leaves it
+// untouched.
+func (x *c13x) emptyPartition(create func(string) bool, op hx.Op) bool {
+	h := x.h
+	if !create("e") {
+		return false
+	}
+	g := x.groups[0]
+	first := x.subscribe("probe", c13spec{stream: "e", group: g, consumer: "a", epoch: c13EpochTable[1+op.Arg(4, 0)%3]})
+	x.await(first)
+	if !first.st.opened || first.st.ended {
+		h.oc.Trouble = fmt.Sprintf("subscribe on the empty partition: %v", first.st.err)
+		return false
+	}
+	second := x.subscribe("probe", c13spec{stream: "e", group: g, consumer: c13Consumers[op.Arg(1, 0)%3], epoch: first.epoch + uint64(op.Arg(0, 0)) - 1, invalid: c13StopLatest})
+	x.await(second)
+	h.s.Logf("empty partition: %v then %v (STOP_LATEST) -> opened=%v err=%v", first, second, second.st.opened, second.st.err)
+	// judge stream e on its own
+	save := x.cur
+	x.cur = map[string]*c13sub{}
+	got, ok := x.marker("e", "after a subscribe on the empty partition was refused")
+	x.cur = save
+	if !ok {
+		return false
+	}
+	h.oc.Checks++
+	switch {
+	case second.st.opened:
+		x.cnt["probe.stop_latest_on_empty_partition_admitted"]++
+	case got[g] != first:
+		h.fail("C13/invalid", "C13/invalid/disturbed/empty-partition", "on a partition without messages a subscribe of group %s (epoch %d, STOP_LATEST) was refused (%v), and afterwards the active %s does not receive messages (ended=%v err=%v; receiver: %v)", g, second.epoch, second.st.err, first, first.st.ended, first.st.err, got[g])
+		return false
+	default:
+		x.cnt["probe.refused_on_empty_partition_left_member_untouched"]++
+	}
+	first.cancel()
+	second.cancel()
+	return true
+}
+
+func (x *c13x) finish(oc *hx.Outcome, probes, refused, replaced int) *hx.Outcome {
 	accepted := 0
-	for _, s := range subs {
+	for _, s := range x.subs {
 		if s.st != nil && s.st.opened {
 			accepted++
 		}
 	}
-	oc.Nontrivial = accepted >= 2 && markers >= 1
+	oc.Nontrivial = accepted >= 2 && x.markers >= 1
 	if oc.Counters == nil {
 		oc.Counters = map[string]int{}
 	}
-	oc.Counters["probe.group_subscribes"] = len(subs)
+	for k, v := range x.cnt {
+		oc.Counters[k] += v
+	}
+	for _, s := range x.subs {
+		if s.st.opened && s.epoch == 0 {
+			oc.Counters["probe.epoch_zero_admitted"]++
+		}
+		if s.st.opened && s.epoch >= 1<<40 {
+			oc.Counters["probe.epoch_beyond_32_bits_admitted"]++
+		}
+		if s.refusedOld() && s.epoch >= 1<<32 {
+			oc.Counters["probe.epoch_beyond_32_bits_refused"]++
+		}
+		if s.st.opened && s.group == "h" {
+			oc.Counters["probe.second_group_admitted"]++
+		}
+		if s.st.opened && s.resume {
+			oc.Counters["probe.resuming_subscribe_admitted"]++
+		}
+	}
+	oc.Counters["probe.group_subscribes"] = len(x.subs)
 	oc.Counters["probe.accepted"] = accepted
-	oc.Counters["probe.marker_rounds"] = markers
+	oc.Counters["probe.marker_rounds"] = x.markers
 	oc.Counters["probe.sequential_probes"] = probes
 	oc.Counters["probe.older_epoch_refused"] = refused
 	oc.Counters["probe.replacements_verified"] = replaced
 	return oc
+}
+
+// ---- two servers: a second member of the group on the follower
+
+func execC13Replica(t *testing.T, prog *hx.Program, dec *simrt.Decider, verbose bool) *hx.Outcome {
+	x := &c13x{stream: "s", groups: c13Groups[:1], published: map[string]int64{}, cur: map[string]*c13sub{}, maxAcc: map[string]uint64{}, cnt: map[string]int{}}
+	x.grpcctx, x.ackAll = true, true
+	oc := runH3(t, prog, dec, verbose, 2, func(h *h3) {
+		x.h = h
+		for i := range h.nodes {
+			if err := h.startNode(i); err != nil {
+				h.oc.Trouble = "start: " + err.Error()
+				return
+			}
+		}
+		ctl := h.waitController(60 * time.Second)
+		if ctl == nil {
+			h.oc.Trouble = "no metadata leader within 60 simulated seconds"
+			return
+		}
+		var cerr error
+		h.rpc(ctl, "create", func(api *apiServer) {
+			ctx, cancel := ctxT(30 * time.Second)
+			defer cancel()
+			_, cerr = api.CreateStream(ctx, &client.CreateStreamRequest{Name: "s", Subject: "s", Partitions: 1, ReplicationFactor: 2})
+		})
+		if cerr != nil {
+			h.oc.Trouble = "create: " + cerr.Error()
+			return
+		}
+		// (evaluated by the driver: reads fields, takes no locks)
+		part := func(n *simNode) *partition {
+			if st := n.srv.metadata.streams["s"]; st != nil {
+				return st.partitions[0]
+			}
+			return nil
+		}
+		var leader, follower *simNode
+		h.waitFor("partition-leader", 30*time.Second, func() bool {
+			leader, follower = nil, nil
+			for _, n := range h.nodes {
+				if p := part(n); p != nil && p.isLeading {
+					leader = n
+				} else if p != nil && p.isFollowing {
+					follower = n
+				}
+			}
+			return leader != nil && follower != nil
+		})
+		if leader == nil || follower == nil {
+			h.oc.Trouble = "no leader and follower for the partition within 30 simulated seconds"
+			return
+		}
+		x.n = leader
+		if x.publishTo("s", "first", false) < 0 {
+			return
+		}
+		onFollower := func(s *c13sub) bool { return s.node == follower }
+		judgeFollower := func(why string) bool {
+			for _, s := range x.subs {
+				if onFollower(s) && s.group != "" && s.st.opened {
+					h.fail("C13/replica", "C13/replica/admitted", "%s: %s was admitted on %s, which does not lead the partition (ReadISRReplica=%v): the group can have a member on the leader at the same time", why, s, follower.id, s.isrReplica)
+					return false
+				}
+			}
+			reg := x.peek(follower, "s")
+			h.oc.Checks++
+			if r := reg["g"]; r != nil {
+				h.fail("C13/replica", "C13/replica/registered", "%s: the follower %s names consumer %s epoch %d as the subscriber of group g", why, follower.id, r.consumer, r.epoch)
+				return false
+			}
+			return true
+		}
+		var round []hx.Op
+		for _, op := range prog.Ops {
+			if h.stop || h.oc.Trouble != "" {
+				break
+			}
+			if op.K != "rprobe" {
+				round = append(round, op)
+				continue
+			}
+			running := 0
+			for ci, o := range round {
+				ci, o := ci, o
+				running++
+				h.s.GoNode(200+ci, "client-"+o.S, func() {
+					defer func() { running-- }()
+					spec := c13spec{group: "g", consumer: c13Consumers[o.Arg(2, 0)%2], epoch: c13EpochTable[o.Arg(1, 1)%5]}
+					switch o.Arg(0, 0) {
+					case 1:
+						spec.node, spec.isrReplica = follower, true
+					case 2:
+						spec.node = follower
+					}
+					s := x.subscribe(o.S, spec)
+					x.await(s)
+					h.s.Logf("%s: subscribe %v on %s ReadISRReplica=%v -> opened=%v ended=%v err=%v", o.S, s, s.node.id, s.isrReplica, s.st.opened, s.st.ended, s.st.err)
+				})
+			}
+			round = nil
+			simrt.WaitUntil("burst", func() bool { return running == 0 || h.stop })
+			if h.stop {
+				break
+			}
+			got, ok := x.marker("s", "after a round of subscribes on leader and follower")
+			if !ok || !judgeFollower("after a round of subscribes on leader and follower") {
+				break
+			}
+			cur := got["g"]
+			if cur == nil {
+				continue
+			}
+			// the group has a member on the leader: the follower takes no member, whatever the epoch
+			s := x.subscribe("probe", c13spec{node: follower, isrReplica: op.Arg(0, 0) == 1, group: "g", consumer: c13Consumers[op.Arg(1, 0)%3], epoch: cur.epoch + uint64(op.Arg(2, 0))})
+			x.await(s)
+			h.oc.Checks++
+			if !s.refused() {
+				h.fail("C13/replica", "C13/replica/admitted", "%s was admitted on the follower %s (ReadISRReplica=%v) while %s is active on the leader %s", s, follower.id, s.isrReplica, cur, leader.id)
+				break
+			}
+			if s.isrReplica {
+				x.cnt["probe.group_subscribe_on_follower_refused.read_isr_replica"]++
+			} else {
+				x.cnt["probe.group_subscribe_on_follower_refused.plain"]++
+			}
+			got, ok = x.marker("s", "after a group subscribe on the follower was refused")
+			if !ok || !judgeFollower("after a group subscribe on the follower was refused") {
+				break
+			}
+			h.oc.Checks++
+			if got["g"] != cur {
+				h.fail("C13/replica", "C13/replica/disturbed", "after a group subscribe on the follower was refused the active %s no longer receives messages (ended=%v err=%v)", cur, cur.st.ended, cur.st.err)
+				break
+			}
+		}
+		if !h.stop && h.oc.Trouble == "" {
+			// (reachability: without a group the follower does serve ReadISRReplica subscribers)
+			s := x.subscribe("plain", c13spec{node: follower, isrReplica: true, consumer: "p"})
+			x.await(s)
+			if s.st.opened {
+				x.cnt["probe.plain_subscribe_on_follower_admitted"]++
+			}
+		}
+		for _, s := range x.subs {
+			s.cancel()
+		}
+		simrt.Sleep(100 * time.Millisecond)
+		for i := range h.nodes {
+			h.stopNode(i)
+		}
+	})
+	return x.finish(oc, 0, 0, 0)
 }
 
 func init() {
